@@ -4,7 +4,7 @@ import vlib, trees, gens
 from vlib import enc
 from checklib import Scenario
 
-def setup(rng, mode=None, owners=False, links=False, bad=False):
+def setup(rng, mode=None, owners=False, links=False, bad=False, popts=False, relative=False):
     """returns dict(cmds, layers, name, sfx, confdirs, read (command reading into object 0), hist (history command or None))"""
     name = rng.choice([b"foo", b"bar"])
     sfx = rng.choice([b"conf", b".conf", b"conf", None, b""])
@@ -16,7 +16,8 @@ def setup(rng, mode=None, owners=False, links=False, bad=False):
         layers = [b"/usr/etc", b"/etc"]
         cmds += trees.populate(rng, layers, name, sfx, confdirs, owners=owners, links=links)
         if confdirs: cmds.append("confdirs " + ",".join(enc(x) for x in confdirs))
-        args = "%s %s %s %s x3d x23" % (enc(layers[0]), enc(layers[1]), enc(name), enc(sfx))
+        rl = [l.lstrip(b"/") for l in layers] if relative else layers      # the working directory is the root of the tree
+        args = "%s %s %s %s x3d x23" % (enc(rl[0]), enc(rl[1]), enc(name), enc(sfx))
         read = "readdirs 0 " + args; hist = "history " + args
         pre = []
     elif mode == 1:                                 # econf_readConfig* with ROOT_PREFIX, project, usr_subdir
@@ -28,7 +29,8 @@ def setup(rng, mode=None, owners=False, links=False, bad=False):
     elif mode == 2:                                 # econf_readConfig* with PARSING_DIRS
         layers = [b"/a", b"/b/c", b"/d"]
         cmds += trees.populate(rng, layers, name, sfx, confdirs, owners=owners, links=links)
-        opts = b"PARSING_DIRS=" + b":".join(layers) + (b";CONFIG_DIRS=" + b":".join(confdirs) if confdirs else b"")
+        rl = [l.lstrip(b"/") for l in layers] if relative else layers
+        opts = b"PARSING_DIRS=" + b":".join(rl) + (b";CONFIG_DIRS=" + b":".join(confdirs) if confdirs else b"")
         pre = ["newopts 0 " + enc(opts)]
         read = "readconfig 0 - - %s %s x3d x23" % (enc(name), enc(sfx))
     else:                                           # drop-ins only: <project>.d, no config name
@@ -38,6 +40,11 @@ def setup(rng, mode=None, owners=False, links=False, bad=False):
         cmds = [c for c in cmds if not (c.startswith("fs") and vlib.dec(c.split()[1]).endswith(name + (b"." + sfx.lstrip(b".") if sfx else b"")) and False)]
         pre = ["newopts 0 " + enc(b"ROOT_PREFIX=/r")]
         read = "readconfig 0 %s %s - %s x3d x23" % (enc(name), enc(b"/usr/lib"), enc(sfx))
+    if popts and pre:
+        # the per-object parser options travel with the handle into every file of the layered read
+        more = rng.choice([b"", b";JOIN_SAME_ENTRIES=1", b";JOIN_SAME_ENTRIES=1", b";PYTHON_STYLE=1", b";JOIN_SAME_ENTRIES=1;PYTHON_STYLE=1", b";JOIN_SAME_ENTRIES=0"])
+        t = pre[0].split()
+        pre = [" ".join([t[0], t[1], enc(vlib.dec(t[2]) + more)])]
     return dict(cmds=cmds, pre=pre, layers=layers, name=name, sfx=sfx, confdirs=confdirs, read=read, hist=hist, mode=mode)
 
 def files_of(cmds):
